@@ -18,7 +18,12 @@ CLAIMED = {
 }
 CLAIMED['C19'] = dict(text='IdMath.tla defines the XOR metric, bucket distance, CRC32C (two 16-bit limbs) / BEP42 and hex parsing; TLC checks the metric laws exhaustively on a small id universe and the BEP42 vectors, then recomputes the library output for every recorded call (161 first-differing-bit classes x fills, character-class mutations of hex strings incl. multi-byte and sign characters, IP classes x r). The thorough tier adds the complete 2^28 masked BEP42 sweep in Rust against the harness reference, which TLC validates against the TLA+ operator.',
              ref='DESIGN.md section 5 C19', technique='TLA+ IdMath operators as oracle: TLC MC of metric laws + TLC validation of recorded library calls (+ Rust sweep against TLC-validated reference)')
-NOTE = {'C19': 'Trusted base: TLC, CommunityModules Bitwise; the harness char->code point conversion. The 2^28 sweep is a Rust comparison against a reference that TLC validates on sampled vectors, not a TLC verdict.', 'C03': SERVER_NOTE, 'C04': SERVER_NOTE, 'C15': SERVER_NOTE + ' CRC32C token forgery by linearity is out of scope (design matter).'}
+RT_NOTE = 'Trusted base: TLC; the IdMath operators (validated in C19); the harness BEP42 classification of universe nodes; the H4/H5 hooks (table projection, re-key). Exhaustive part bounded by MC_RT.cfg (4-bit ids, K = 2, 9 nodes over 5 IPs).'
+CLAIMED['C11'] = dict(text='RT.tla models ClosestNodes::add (IP rule + secure-first/XOR insertion), RoutingTable::closest and take_until_secure; TLC explores every reachable small table and every target (answer members, order, prefix property), then validates every recorded closest() answer, accumulator order and take_until_secure slice of the real code over real 160-bit ids with the L1 formulas recomputed from the observed table. The literal prefix formula is known to fail (KF-C11-1); the model reproduces exactly that counterexample and the check reports any omission not explained by it.',
+             ref='DESIGN.md section 5 C11', technique='TLA+ RT module: TLC exhaustive MC + TLC trace validation of recorded public-API operations')
+CLAIMED['C12'] = dict(text='RT.tla models add / remove / re-key / staleness in the order of the code; TLC checks NoSelf, UniqueIds, BucketMatchesDistance, BucketSize, IpRule in every reachable state and EvictOnlyStaleHead for every possible add from every state; the same invariants are then evaluated by TLC on the OBSERVED projection of the real table after every operation of seeded random sequences (shared IPs, secure/insecure ids, clustered ids, clock across the 15 min boundary), with the model transition checked for conformance.',
+             ref='DESIGN.md section 5 C12', technique='TLA+ RT module: TLC exhaustive MC + TLC trace validation of recorded public-API operations')
+NOTE = {'C11': RT_NOTE, 'C12': RT_NOTE, 'C19': 'Trusted base: TLC, CommunityModules Bitwise; the harness char->code point conversion. The 2^28 sweep is a Rust comparison against a reference that TLC validates on sampled vectors, not a TLC verdict.', 'C03': SERVER_NOTE, 'C04': SERVER_NOTE, 'C15': SERVER_NOTE + ' CRC32C token forgery by linearity is out of scope (design matter).'}
 NA_REASON = {}
 
 def main():
